@@ -96,6 +96,11 @@ var configs = []config{
 	{"dissect-2named-quote-in-name", "dissect", `%{a"b}|%{y}`, []string{`a"b`, "y"}},
 	{"dissect-1named-backslash-in-name", "dissect", `%{k\}|%{}`, []string{`k\`}},
 	{"dissect-1named-non-ascii-name", "dissect", `%{é}|%{}`, []string{"é"}},
+	// names that a case-folding or prefix-based ordering cannot tell apart
+	{"regex-2named-case-variants", "regex", `^(?P<x>[^|]*)\|(?P<X>[^|]*)$`, []string{"x", "X"}},
+	{"dissect-2named-case-variants", "dissect", `%{ID}|%{id}`, []string{"ID", "id"}},
+	{"dissect-2named-non-ascii-case-variants", "dissect", `%{é}|%{É}`, []string{"é", "É"}},
+	{"regex-2named-prefix-names", "regex", `^(?P<ab>[^|]*)\|(?P<a>[^|]*)$`, []string{"ab", "a"}},
 }
 
 var keys = []string{"{.}", "{#}", "{.#}"}
